@@ -212,9 +212,11 @@ void Runner<A>::doReject(const sim::Op &op) {
     const uint64_t after = sweepDigest(*g, m);
     if (after != before) mismatch(REJECT, "state_changed:" + en.name, cell);
     else if (twin) {
+        // (same vertices, edges and labels as its own pre-call copy, yet unequal: as much a C06 matter as a C07 one)
+        const Cat owner = plan.profile == "C06" ? EQ : REJECT;
         try {
-            if (!(*g == *twin) || !(*twin == *g)) mismatch(REJECT, "not_equal_to_pre_call_copy:" + en.name, cell);
-        } catch (const std::exception &ex) { mismatch(REJECT, "not_equal_to_pre_call_copy:" + en.name, ex.what()); }
+            if (!(*g == *twin) || !(*twin == *g)) mismatch(owner, "not_equal_to_pre_call_copy:" + en.name, cell);
+        } catch (const std::exception &ex) { mismatch(owner, "not_equal_to_pre_call_copy:" + en.name, ex.what()); }
     }
 }
 
